@@ -122,6 +122,11 @@ MUTANTS: List[Tuple[str, List[Tuple[str, str, str]], List[Tuple[str, str]]]] = [
     ('rt5-exhaustion-falls-through', [(M, "                    if node.use_default:\n                        return run_node_default(node, **kwargs)\n\n                    raise error\n\n                await self.ctx.emit_on_node_complete",
                                           "                    if node.use_default:\n                        return run_node_default(node, **kwargs)\n\n                await self.ctx.emit_on_node_complete")], [('C12', 'RT-5')]),
     ('rt5-inverted-test', [(M, "                if n_attempts == retry_policy.attempts:", "                if n_attempts != retry_policy.attempts:")], [('C12', 'RT-5')]),
+    ('f25-case-filter-by-truthiness', [(M, "            return EdgeField.case_branch not in self.dag.graph.edges[u, v]\n", "            return not self.dag.graph.edges[u, v].get(EdgeField.case_branch)\n")], [('C09', 'SW-1')]),
+    ('f26-unhashable-label-unhandled', [(M, "        try:\n            has_branch = selected_branch_label in branch_nodes\n        except TypeError:\n            # An unhashable label cannot match any case\n            has_branch = False\n", "        has_branch = selected_branch_label in branch_nodes\n")], [('C05', 'ER-5'), ('C09', 'ER-5')]),
+    ('f23-additional-data-kept', [(M, "        self._additional_data.pop(start_from_node_id, None)\n", "        pass\n")], [('C11', 'RC-8')]),
+    ('f24-forced-default-inside-retry', [(M, "        n_attempts = 1\n        while True:\n            try:\n                logger.debug('Start execution node_id=%s', node_id)", "        n_attempts = 1\n        while True:\n            try:\n                if force_default:\n                    return run_node_default(node, **kwargs)\n                logger.debug('Start execution node_id=%s', node_id)")], [('C12', 'RT-7')]),
+    ('f27-retry-catches-cancellation', [(M, "                if not isinstance(error, Exception):\n", "                if False:\n")], [('C12', 'RT-2'), ('C13', 'RT-2')]),
     ('rt6-default-without-opt-in', [(M, "            except Exception:\n                if node.use_default:\n                    return run_node_default(node, **kwargs)\n\n                raise", "            except Exception:\n                return run_node_default(node, **kwargs)")], [('C12', 'RT-6')]),
     ('ev1-complete-before-run', [(C, "        await ctx.emit_on_pipeline_start()\n", "        await ctx.emit_on_pipeline_start()\n        await ctx.emit_on_pipeline_complete(result=None)\n")], [('C14', 'EV-1')]),
     ('ev1-error-path-no-complete', [(C, "            result = PipelineResult(pipeline_id=pipeline_id, value=None, error=ex)\n            await ctx.emit_on_pipeline_complete(result=result)\n", "            result = PipelineResult(pipeline_id=pipeline_id, value=None, error=ex)\n")], [('C14', 'EV-1')]),
